@@ -526,7 +526,7 @@ class MachineGen:
                     if not outs:
                         continue
                     tgt, re = rng.choice(outs), False
-                g = self.guard_ctx() if (ncand == 2 and j == 0) or rng.random() < 0.15 else None
+                g = (self.any_guard(nodes) if p.get("rich_guards") else self.guard_ctx()) if (ncand == 2 and j == 0) or rng.random() < 0.15 else None
                 lst.append(self.tcfg(n, tgt, re, g))
             if not lst:
                 continue
@@ -615,9 +615,16 @@ class MachineGen:
             inv["input"] = {"k": n.key}
         tgt, re = self.pick_target(n, nodes, root)
         inv["onDone"] = self.tcfg(n, tgt, re, None)
+        if p.get("rich_guards") and rng.random() < 0.5:
+            # a guarded first candidate (any atom, also raising ones) in front of the unguarded fallback
+            tgt2, re2 = self.pick_target(n, nodes, root)
+            inv["onDone"] = [self.tcfg(n, tgt2, re2, self.any_guard(nodes)), inv["onDone"]]
         if rng.random() < 0.7:
             tgt, re = self.pick_target(n, nodes, root)
             inv["onError"] = self.tcfg(n, tgt, re, None)
+            if p.get("rich_guards") and rng.random() < 0.5:
+                tgt2, re2 = self.pick_target(n, nodes, root)
+                inv["onError"] = [self.tcfg(n, tgt2, re2, self.any_guard(nodes)), inv["onError"]]
         if "invoke" in n.cfg:
             prev = n.cfg["invoke"]
             n.cfg["invoke"] = (prev if isinstance(prev, list) else [prev]) + [inv]
